@@ -394,7 +394,7 @@ func (p *parser) primary() Expr {
 
 var keywords = map[string]bool{
 	"package": true, "sort": true, "spec": true, "macro": true, "axiom": true, "lemma": true,
-	"ghost": true, "func": true, "iface": true, "property": true, "requires": true, "ensures": true,
+	"ghost": true, "func": true, "iface": true, "property": true, "requires": true, "ensures": true, "assumes": true, "guarantees": true, "ginvariant": true, "gloopinv": true,
 	"invariant": true, "modifies": true, "pure": true, "trusted": true, "aux": true, "inline": true,
 	"nobody": true, "replay": true, "reveal": true, "auto": true, "loopinv": true, "writes": true, "const": true, "import": true, "fresh": true, "opt": true, "induct": true, "counter": true, "okcounter": true,
 }
@@ -483,6 +483,10 @@ func ParseFile(path string, pkg string) (*File, error) {
 				f.Consts = append(f.Consts, Var{parts[0], srt})
 			} else {
 				f.Ghosts = append(f.Ghosts, Var{parts[0], srt})
+				if f.GhostPkg == nil {
+					f.GhostPkg = map[string]string{}
+				}
+				f.GhostPkg[parts[0]] = f.Pkg
 			}
 			cur = nil
 		case "counter", "okcounter":
@@ -569,7 +573,7 @@ func ParseFile(path string, pkg string) (*File, error) {
 					lastClause.Props = ps
 				}
 				cur.Props = append(cur.Props, ps...)
-			case "requires", "ensures":
+			case "requires", "ensures", "assumes", "guarantees":
 				cl, err := parseClause(d.text)
 				if err != nil {
 					return nil, fail(d, err)
@@ -577,11 +581,15 @@ func ParseFile(path string, pkg string) (*File, error) {
 				cl.Src = src
 				if d.kw == "requires" {
 					cur.Requires = append(cur.Requires, cl)
+				} else if d.kw == "assumes" {
+					cur.Assumes = append(cur.Assumes, cl)
+				} else if d.kw == "guarantees" {
+					cur.Guarantees = append(cur.Guarantees, cl)
 				} else {
 					cur.Ensures = append(cur.Ensures, cl)
 				}
 				lastClause = cl
-			case "invariant":
+			case "invariant", "ginvariant":
 				parts := strings.SplitN(d.text, " ", 2)
 				n := 0
 				if _, err := fmt.Sscanf(parts[0], "%d", &n); err != nil || len(parts) != 2 {
@@ -593,14 +601,16 @@ func ParseFile(path string, pkg string) (*File, error) {
 				}
 				cl.Loop = n
 				cl.Src = src
+				cl.U = d.kw == "ginvariant"
 				cur.Invs = append(cur.Invs, cl)
-			case "loopinv":
+			case "loopinv", "gloopinv":
 				cl, err := parseClause(d.text)
 				if err != nil {
 					return nil, fail(d, err)
 				}
 				cl.Loop = 0
 				cl.Src = src
+				cl.U = d.kw == "gloopinv"
 				cur.Invs = append(cur.Invs, cl)
 			case "modifies":
 				cur.HasMod = true
